@@ -8,7 +8,7 @@ From Coq Require Import List ZArith QArith Qcanon Lia Bool Ring Field.
 From Inovesa Require Import Base.FieldKit Base.Sums Base.Float32 Gen.Gen_Coeffs Model.Kick
   Model.StepKinds Gen.Gen_StepOrder Model.RunKinds Gen.Gen_WakeUpdate Gen.Gen_Identity Gen.Gen_KickIndex
   Model.Copy Model.WakeUpdate Model.Haiss Proofs.WeightsP Proofs.KickP Proofs.KickGridP Proofs.CopyP
-  Proofs.WakeUpdateP Proofs.ForceP.
+  Proofs.HaissGenP Proofs.ForceP.
 Import ListNotations.
 Local Open Scope Z_scope.
 
